@@ -838,6 +838,8 @@ def run(ctx):
 
 
 def write_corpus(ctx, items):
+    """Small committed corpus for the system-level check C03: queue shapes
+    and status matrices on which the sweep disagrees with the oracle."""
     d = os.path.join(ctx['home'], 'corpus')
     os.makedirs(d, exist_ok=True)
     grouped = {}
@@ -848,20 +850,37 @@ def write_corpus(ctx, items):
                    for v in fg.targets(spec, dd)]
         g['cases'].append({'clause': clause, 'failed': [
             c for i, c in enumerate(commits) if (mask >> i) & 1]})
-    out = {'property': 'C05', 'tier': ctx['tier'],
-           'format': 'spec as vf.fakegit.build_queue_world; failed = queue '
-                     'commits [pr, version] that are FAILED, all others '
-                     'SUCCESSFUL; <= 3 PRs: every disagreeing case, 4 PRs: '
-                     'the 3 cases with fewest failures per structure '
-                     '(n_cases = all)',
-           'structures': [grouped[k] for k in sorted(
-               grouped, key=lambda k: (len(grouped[k]['spec']['prs']), k))]}
-    for g in out['structures']:
+    summary = {}
+    keep = []
+    for k in sorted(grouped, key=lambda k: (len(grouped[k]['spec']['prs']),
+                                            k)):
+        g = grouped[k]
+        sp = g['spec']
+        cls = '%d PRs, %d stabilization branch(es), %s' % (
+            len(sp['prs']), len(sp['stabs']),
+            'hotfix' if sp['hotfixes'] else 'no hotfix')
+        summary[cls] = summary.get(cls, 0) + len(g['cases'])
         g['cases'].sort(key=lambda c: (len(c['failed']), c['failed']))
         g['n_cases'] = len(g['cases'])
-        if len(g['spec']['prs']) > 3:
-            g['cases'] = g['cases'][:3]     # the ones with fewest failures
-    out['n_cases'] = sum(g['n_cases'] for g in out['structures'])
+        g['cases'] = g['cases'][:2]
+        if len(sp['prs']) <= 3 and not sp['hotfixes'] and \
+                set(sp['devs']) <= set(MAIN_DEVS[-1]):
+            keep.append(g)
+    out = {'property': 'C05', 'tier': ctx['tier'],
+           'format': 'spec as vf.fakegit.build_queue_world (devs oldest -> '
+                     'newest, prs = [id, destination] in order of entry); '
+                     'failed = queue commits [pr, version] whose build is '
+                     'FAILED, every other queue commit SUCCESSFUL; clause = '
+                     'what vf.checks.c05.judge reported. Listed: the '
+                     'structures with <= 3 PRs on development/4.3, 5.1, 10.0 '
+                     'without hotfix branch, the 2 cases with fewest '
+                     'failures each (n_cases = all of that structure); '
+                     'all_disagreements_by_class counts every disagreeing '
+                     'case of the sweep. Regenerate: VERIF_C05_WRITE_CORPUS=1'
+                     ' bin/check C05 --tier thorough',
+           'n_cases_total': len(items),
+           'all_disagreements_by_class': dict(sorted(summary.items())),
+           'structures': keep}
     with open(os.path.join(d, 'c05_disagreements.json'), 'w') as f:
         json.dump(out, f, separators=(',', ':'), sort_keys=True)
 
